@@ -46,9 +46,12 @@ theorem deactivateAll_act (skip : Option Nat) (l : List Nat) : ∀ s j,
       · subst hj; simp [hsk]
       · simp [hj]
 
-theorem setCb_cb (o : Nat) (c : Option Nat) (s : St) (o' : Nat) :
-    (setCb o c s).cb o' = if o' = o then c else s.cb o' := rfl
-@[simp] theorem setCb_act (o : Nat) (c : Option Nat) (s : St) : (setCb o c s).act = s.act := rfl
+theorem setCb_cb (cfg : Cfg) (o : Nat) (c : Option Nat) (s : St) (o' : Nat) :
+    (setCb cfg o c s).cb o' = if o' = o then c else s.cb o' := rfl
+@[simp] theorem setCb_act (cfg : Cfg) (o : Nat) (c : Option Nat) (s : St) : (setCb cfg o c s).act = s.act := rfl
+@[simp] theorem setActive_cb (cfg : Cfg) (k : Nat) (s : St) : (setActive cfg k s).cb = s.cb := rfl
+theorem setActive_act (cfg : Cfg) (k : Nat) (s : St) (j : Nat) :
+    (setActive cfg k s).act j = if j = k then true else s.act j := rfl
 
 theorem activate_cb (cfg : Cfg) (k : Nat) (s : St) (o : Nat) :
     (activate cfg k s).cb o = if o = cfg.outOf k then some k else s.cb o := by
@@ -57,7 +60,7 @@ theorem activate_cb (cfg : Cfg) (k : Nat) (s : St) (o : Nat) :
 theorem activate_act (cfg : Cfg) (k : Nat) (s : St) (j : Nat) :
     (activate cfg k s).act j =
       if j = k then true else if j < cfg.n ∧ cfg.outOf j = cfg.outOf k then false else s.act j := by
-  simp only [activate, emit_act, setCb_act]
+  simp only [activate, setActive_act, setCb_act]
   by_cases h : j = k
   · simp [h]
   · simp only [h, if_false]
